@@ -18,12 +18,17 @@
     [C11_reject_or_valid]    for EVERY string and EVERY behaviour of zlib,
                              from_str returns an error or a machine that passed
                              validation.
+    [C11_v1_never_panics]    the legacy v1 parser (parse_v1 on the decompressed
+    [C11_v1_valid]           payload, modelled slice by slice with explicit
+                             out-of-range and overflow panics) cannot panic on
+                             ANY byte string, and whatever it returns passed
+                             validation.
     Not proved here (named in DESIGN.md): panic-freedom and memory use inside
-    flate2/bincode/base64/hex, the single-read behaviour of ZlibDecoder (an
-    assumption above, measured by the correspondence run close to the limit),
-    and the legacy v1 parser (explored on the real code under catch_unwind). *)
+    flate2/bincode/base64/hex (oracles), and the hex/zlib front of the v1
+    entry point. *)
 From MB Require Import Model.Framework Model.Validate Model.MachineString.
 From MB Require Import Model.Codec.Base64 Model.Codec.Bincode.
+From MB Require Model.Codec.V1 Proofs.Codec.V1Proofs.
 From MB Require Import Proofs.Codec.Base64Proofs Proofs.Codec.BincodeProofs Proofs.MachineStringProofs.
 Open Scope N_scope.
 
@@ -56,3 +61,12 @@ Theorem C11_reject_or_valid : forall inflate s m,
   from_str inflate s = Some m -> validate_machine m = true.
 Proof. exact from_str_valid. Qed.
 Print Assumptions C11_reject_or_valid.
+
+Theorem C11_v1_never_panics : forall bytes, (forall b, In b bytes -> b < 256) ->
+  forall k, V1.parse_v1 bytes <> Panic k.
+Proof. exact V1Proofs.parse_v1_never_panics. Qed.
+Print Assumptions C11_v1_never_panics.
+
+Theorem C11_v1_valid : forall bytes m, V1.parse_v1 bytes = Ok (Some m) -> validate_machine m = true.
+Proof. exact V1Proofs.parse_v1_valid. Qed.
+Print Assumptions C11_v1_valid.
